@@ -63,11 +63,15 @@ def run(ck, ctx):
     mod = I.module(CONFIG_MOD)
 
     I.watch_calls.add("parse_units")
+    sch.resolve_members(I)
     _vmemo, _smemo = {}, {}
 
     def callable_of(fi):
         """function node of a validator / serializer; for one made by a factory, a closure over the factory call's
         arguments"""
+        clo = getattr(fi, "factory_closure", None)
+        if clo is not None:
+            return clo              # evaluated by the interpreter: the closure with the factory's environment
         fenv = getattr(fi, "factory_env", None)
         if fenv is None:
             return I.func_node(fi)
